@@ -263,3 +263,56 @@ Theorem C11_insertion_index_length_partial :
   forall ii, ii_marshal_len ii = blen (ii_marshal ii) <-> ii = [].
 Proof. exact ii_marshal_len_right_iff_empty. Qed.
 Print Assumptions C11_insertion_index_length_partial.
+
+(* ---- a SECOND Load on one sorted index ------------------------------------------------------------------
+   C11 (and C03) speak of an index loaded once; these statements pin down what the code does when
+   Load is called again (exercised by harness kind idxload2): the buckets named by the new records --
+   by width for car-index-sorted, the whole per-code index for car-multihash-index-sorted -- are
+   REPLACED, the others kept.  The Index.Load doc comment says "inserts"; InsertionIndex.Load does. *)
+From GoCarProofs Require Import IndexLoadTwice.
+
+Theorem C11_second_load_replaces_bucket_sorted :
+  forall (srt : list irec -> list irec),
+    (forall l, Permutation (srt l) l /\
+               StronglySorted (fun a b => bytes_leb (r_digest a) (r_digest b) = true) (srt l)) ->
+  forall rs1 rs2 d,
+    Forall (fun r => r_off r < two64 /\ r_code r < two64 /\ blen (r_digest r) + 8 <= max_width) rs1 ->
+    blen (compact rs1) <= max_alloc ->
+    Forall (fun r => r_off r < two64 /\ r_code r < two64 /\ blen (r_digest r) + 8 <= max_width) rs2 ->
+    blen (compact rs2) <= max_alloc ->
+    Permutation (mwi_getall (mwi_load_with srt rs2 (mwi_load_with srt rs1 [])) d)
+                (if existsb (fun r => blen (r_digest r) + 8 =? blen d + 8) rs2
+                 then spec_offsets_digest rs2 d else spec_offsets_digest rs1 d).
+Proof. exact mwi_second_load_replaces. Qed.
+Print Assumptions C11_second_load_replaces_bucket_sorted.
+
+Theorem C11_second_load_replaces_code_multihash :
+  forall (srt : list irec -> list irec),
+    (forall l, Permutation (srt l) l /\
+               StronglySorted (fun a b => bytes_leb (r_digest a) (r_digest b) = true) (srt l)) ->
+  forall rs1 rs2 code d,
+    Forall (fun r => r_off r < two64 /\ r_code r < two64 /\ blen (r_digest r) + 8 <= max_width) rs1 ->
+    blen (compact rs1) <= max_alloc ->
+    Forall (fun r => r_off r < two64 /\ r_code r < two64 /\ blen (r_digest r) + 8 <= max_width) rs2 ->
+    blen (compact rs2) <= max_alloc ->
+    Permutation (mh_getall (mh_load_with srt rs2 (mh_load_with srt rs1 [])) code d)
+                (if existsb (fun r => r_code r =? code) rs2
+                 then spec_offsets_mh rs2 code d else spec_offsets_mh rs1 code d).
+Proof. exact mh_second_load_replaces. Qed.
+Print Assumptions C11_second_load_replaces_code_multihash.
+
+(* "Load is additive" is false of the sorted indexes: a record loaded first is gone after a second
+   Load of another record with its width and code (witness replayed: corpus/C11/load-twice.case) *)
+Theorem C11_load_additive_refuted :
+  exists codec i0 rs1 rs2 c d,
+    idx_new codec = Some i0 /\
+    idx_getall (idx_load rs2 (idx_load rs1 i0)) c d = [] /\
+    idx_getall (idx_load (rs1 ++ rs2) i0) c d = [100].
+Proof. exact load_not_additive_refuted. Qed.
+Print Assumptions C11_load_additive_refuted.
+
+(* ... and true of the insertion index *)
+Theorem C11_insertion_index_load_additive :
+  forall rs1 rs2, ii_load rs2 (ii_load rs1 []) = ii_load (rs1 ++ rs2) [].
+Proof. exact ii_load_additive. Qed.
+Print Assumptions C11_insertion_index_load_additive.
